@@ -44,7 +44,7 @@ class Model:
         self.root, self.package = root, package
         self.modules, self.sources, self.sha = {}, {}, {}
         self.classes, self.functions, self.imports, self.module_assigns = {}, {}, {}, {}
-        self.locals_table, self.alpha_applied, self.noise_removed = alpha.load_table(), [], 0
+        self.locals_table, self.alpha_applied, self.noise_removed, self.temps_inlined = alpha.load_table(), [], 0, []
         for dp, dn, fns in os.walk(root):
             dn[:] = [d for d in dn if d != "__pycache__"]
             for f in sorted(fns):
@@ -59,9 +59,16 @@ class Model:
                 self.modules[name] = ast.parse(src, filename=p)
                 self.modules[name]._path = p
                 self.noise_removed += alpha.strip_noise(self.modules[name])         # pass / assert / print / logging statements
-                # locals renamed since the rules were confirmed are renamed back (an alpha-conversion; see sa/alpha.py)
-                for key, mapping in alpha.canonicalise(self.modules[name], self.locals_table.get(name, {})):
-                    self.alpha_applied.append("%s.%s: %s" % (name, key, ", ".join("%s->%s" % kv for kv in sorted(mapping.items()))))
+                # locals renamed since the rules were confirmed are renamed back (an alpha-conversion; see sa/alpha.py); explaining variables
+                # added since are substituted back, after which a second renaming pass may apply
+                tab = self.locals_table.get(name, {})
+                for _ in range(2):
+                    for key, mapping in alpha.canonicalise(self.modules[name], tab):
+                        self.alpha_applied.append("%s.%s: %s" % (name, key, ", ".join("%s->%s" % kv for kv in sorted(mapping.items()))))
+                    got = alpha.inline_new_temps(self.modules[name], tab)
+                    self.temps_inlined += got
+                    if not got:
+                        break
         for m, tree in self.modules.items():
             imp, assigns = {}, {}
             for st in ast.walk(tree):     # imports may be function-local (rewriting.py, circuit.py)
